@@ -654,7 +654,7 @@ fn bits(f: f64) -> u64 { f.to_bits() }
 pub fn run(args: &Args) {
 	quiet_panics();
 	let mut out = Out::new(&args.out);
-	out.rule = "boxes: every box (valid + all empty encodings) at zoom 0..2 × all pairs × {isect, incl, ovl} and every unary op (thorough: zoom 3 unary + 10^5 sampled pairs); seeded boxes up to zoom 31 with border coordinates 0,1,255,256,2^z-1; grid sizes 1,2,3,32,256,2^z,2^31; pyramids with mixed empty encodings; geo boxes: world, poles, zero-area, on/near tile borders (±k·1e-6 tile), random; round trips of sampled boxes at every zoom; include_coord3 / intersect_pyramid / get_coord3_by_index / is_valid / get_sort_index (corners of every level, z up to 255) / get_good_zoom with levels of 9..12 tiles / centre zoom / from_geo_bbox with zoom ranges incl. reversed and > 31. non-trivial = (pair) both non-empty and neither contains the other, or an empty encoding involved; (unary) box non-empty and not a single tile; distinct by case text".into();
+	out.rule = "boxes: every box (valid + all empty encodings) at zoom 0..2 × all pairs × {isect, incl, ovl} and every unary op (thorough: zoom 3 unary + 10^5 sampled pairs); seeded boxes up to zoom 31 with border coordinates 0,1,255,256,2^z-1; grid sizes 1,2,3,32,256,2^z,2^31; pyramids with mixed empty encodings; geo boxes: world, poles, zero-area, on/near tile borders (±k·1e-6 tile), random; round trips of sampled boxes at every zoom; include_coord3 / intersect_pyramid / get_coord3_by_index / is_valid / get_sort_index (corners of every level, z up to 255) / get_good_zoom with levels of 9..12 tiles / centre zoom / from_geo_bbox with zoom ranges incl. reversed and > 31; from_geo_bbox / intersect_geo_bbox with edges on or within ±1e-9…1e-5 tile of a coarse (zoom 1..10) tile border over zoom ranges up to 31. non-trivial = (pair) both non-empty and neither contains the other, or an empty encoding involved; (unary) box non-empty and not a single tile; distinct by case text".into();
 	let mut cx = Ctx { out: &mut out };
 	if let Some(p) = &args.replay {
 		for line in std::fs::read_to_string(p).unwrap().lines() {
@@ -802,6 +802,37 @@ pub fn run(args: &Args) {
 				cx.case(format!("C15 p_geo {spx} {} {} {} {}", bits(a.min(b)), bits(c.min(d)), bits(a.max(b)), bits(c.max(d))), true);
 			}
 			cx.case(format!("C15 p_geo {} {} {} {} {}", show_pyr(&pz), bits(10.0), bits(10.0), bits(5.0), bits(5.0)), true); // reversed: documented panic site
+		}
+	}
+	// --- pyramids from / clipped by geo boxes whose edges sit on or a hair beside a COARSE tile border (inside the
+	// 1e-6-tile rounding guard at the coarse level, outside it at finer levels): per-level projection is not the same as
+	// projecting once and shifting
+	{
+		let lat_of = |z: u8, y: f64| -> f64 { let zoom = (1u64 << z) as f64; ((std::f64::consts::PI * (1.0 - 2.0 * y / zoom)).exp().atan() / std::f64::consts::PI - 0.25) * 360.0 };
+		let lon_of = |z: u8, x: f64| -> f64 { let zoom = (1u64 << z) as f64; (x / zoom - 0.5) * 360.0 };
+		let deltas = [0.0, 1e-9, -1e-9, 1e-8, -1e-8, 1e-7, -1e-7, 5e-7, -5e-7, 9e-7, -9e-7, 1.1e-6, -1.1e-6, 2e-6, -2e-6, 1e-5, -1e-5];
+		for i in 0..args.n(400, 6000) {
+			let zc = rng.range(1, 10) as u8;
+			let m = (1u64 << zc) as f64;
+			let k = |rng: &mut Rng| rng.range(1, (m as u64).max(2) - 1) as f64;
+			let (kx0, ky0) = (k(&mut rng), k(&mut rng));
+			let (dx0, dy0, dx1, dy1) = (*rng.pick(&deltas), *rng.pick(&deltas), *rng.pick(&deltas), *rng.pick(&deltas));
+			let span = rng.range(0, 3) as f64;
+			// west/north edge near border (kx0, ky0); east/south edge near border (kx0+span, ky0+span) or random
+			let w = lon_of(zc, kx0 + dx0).clamp(-180.0, 180.0);
+			let n = lat_of(zc, ky0 + dy0).clamp(-90.0, 90.0);
+			let e = if i % 3 == 0 { (w + rng.below(40_000_000) as f64 / 1e6).min(180.0) } else { lon_of(zc, (kx0 + span + dx1).min(m)).clamp(w, 180.0) };
+			let s_ = if i % 3 == 1 { (n - rng.below(20_000_000) as f64 / 1e6).max(-90.0) } else { lat_of(zc, (ky0 + span + dy1).min(m)).clamp(-90.0, n) };
+			let zmax = *rng.pick(&[zc, zc + 1, 12, 16, 20, 24, 31]);
+			let zmin = if rng.chance(1, 2) { 0 } else { rng.below(zc as u64 + 1) as u8 };
+			cx.case(format!("C15 p_fromgeo {zmin} {zmax} {} {} {} {}", bits(w), bits(s_), bits(e), bits(n)), true);
+			let mut pf = TileBBoxPyramid::new_full(zmax.min(31));
+			if rng.chance(1, 3) { pf.set_zoom_min(zmin); }
+			cx.case(format!("C15 p_geo {} {} {} {} {}", show_pyr(&pf), bits(w), bits(s_), bits(e), bits(n)), true);
+			// the same edges as single-level projections (the reference the two pyramid functions must agree with)
+			for z in [zc, zc.saturating_sub(1), (zc + 3).min(31)] {
+				cx.case(format!("C15 g_from {z} {} {} {} {}", bits(w), bits(s_), bits(e), bits(n)), true);
+			}
 		}
 	}
 	cx.case("C15 p_empty".into(), true);
